@@ -442,12 +442,12 @@ def run(ck: Check):
     r = ck.rng
     nseeds = ck.n(4, 64)
     seeds = [str(s) for s in ([0, 1, 2, 3] + [r.randint(4, 2 ** 32 - 1) for _ in range(nseeds - 4)])[:nseeds]]
-    core_seeds = seeds[:ck.n(3, 8)]
+    core_seeds = seeds[:ck.n(3, 6)]
     dist = {}
     distinct = set()
 
     # ================================================================== A. the modelled cores
-    N = ck.n(1, 6)
+    N = ck.n(1, 4)
     ops, kinds = [], []
 
     def add(kind, op):
@@ -455,11 +455,11 @@ def run(ck: Check):
         kinds.append(kind)
         dist[kind] = dist.get(kind, 0) + 1
 
-    for _ in range(120 * N):
+    for _ in range(ck.n(90, 480)):
         add("scc", {"op": "scc", "edges": g_graph(r)})
     for _ in range(120 * N):
         add("topo", {"op": "topo", "data": g_topo(r)})
-    for _ in range(90 * N):
+    for _ in range(ck.n(70, 360)):
         specs = g_classes(r)
         op = {"op": "clusters", "classes": specs}
         if r.random() < 0.7:
@@ -685,10 +685,10 @@ def run(ck: Check):
             if name in ("dtd", "artists", "series", "stripe", "mixed-kinds") and st == "namespace-clusters" and ck.quick:
                 continue
             add_job(f"{name}/{st}", sources, g_options(r, st), entry)
-    ngen = ck.n(10, 60)
+    ngen = ck.n(10, 50)
     for k in range(ngen):
         sources = g_schema_set(r)
-        for st in (r.sample(STYLES, 2) if ck.quick else STYLES):
+        for st in r.sample(STYLES, 2 if ck.quick else 3):
             add_job(f"gen{k}/{st}", sources, g_options(r, st))
     ck.cov["pipeline_jobs"] = len(jobs)
 
@@ -706,15 +706,39 @@ def run(ck: Check):
                        {"options": j["options"], "xml": x["xml"], "before": x["a"], "after": x["b"]})
         cfg_jobs.append(dict(j, options={"config_xml": x["xml"]}))
 
-    def batch(args):
-        jb, seed = args
-        return run_impl("impl_c12.py", {"ops": jb}, timeout=3000, with_shims=True, hashseed=seed)["results"]
+    all_idx = list(range(len(jobs)))
+    heavy = [i for i in all_idx if jobs[i]["id"].startswith("mathml3")]
+    light = [i for i in all_idx if i not in heavy]
+    tasks = []   # (label, seed, job list, indices)
+    if ck.quick:
+        # the 20 s mathml3 job: both runs of the first seed, one run of the next two; everything else everywhere
+        for si, s in enumerate(seeds):
+            for k in (1, 2):
+                tasks.append((f"seed {s} run {k}", s, jobs, all_idx if (si == 0 or (si < 3 and k == 1)) else light))
+    else:
+        # every job under the first 8 seeds (the first 4 twice; the 20 s mathml3 jobs twice under the first seed only),
+        # plus a rotating quarter of the light jobs under each of the remaining seeds: every light job sees 8 + 14 seeds
+        for si, s in enumerate(seeds):
+            if si < 8:
+                tasks.append((f"seed {s} run 1", s, jobs, all_idx))
+                if si < 4:
+                    tasks.append((f"seed {s} run 2", s, jobs, light + (heavy if si == 0 else [])))
+            else:
+                tasks.append((f"seed {s} run 1", s, jobs, [i for i in light if i % 4 == si % 4]))
+    tasks.append((f"seed {seeds[0]} via .xsdata.xml", seeds[0], cfg_jobs, light if ck.quick else all_idx))
+    labels = [t[0] for t in tasks]
 
-    tasks = [(jobs, s) for s in seeds for _ in (0, 1)] + [(cfg_jobs, seeds[0])]
-    labels = [f"seed {s} run {k}" for s in seeds for k in (1, 2)] + [f"seed {seeds[0]} via .xsdata.xml"]
+    def batch(task):
+        _, seed, jb, idxs = task
+        res = run_impl("impl_c12.py", {"ops": [jb[i] for i in idxs]}, timeout=3000, with_shims=True, hashseed=seed)["results"]
+        full = [None] * len(jb)
+        for i, x in zip(idxs, res):
+            full[i] = x
+        return full
+
     with cf.ThreadPoolExecutor(max_workers=ck.n(9, 12)) as ex:
         outs = list(ex.map(batch, tasks))
-    ck.cov["evaluations"] += len(jobs) * len(tasks)
+    ck.cov["evaluations"] += sum(len(t[3]) for t in tasks)
     ref = outs[0]
     status_count = {}
     for j, x in zip(jobs, ref):
@@ -732,6 +756,8 @@ def run(ck: Check):
         if t == 0:
             continue
         for j, a, b in zip(jobs, ref, out):
+            if b is None:
+                continue
             if "harness_error" in b:
                 raise RuntimeError("pipeline job failed in the harness: " + b["trace"])
             if a["status"] == "timeout" or b["status"] == "timeout":
@@ -769,7 +795,7 @@ def run(ck: Check):
     ck.cov["id_coincidence_only_differences"] = {"count": len(id_only), "samples": id_only[:5],
                                                  "meaning": "identical files; the processed classes differ only in WHICH id()-derived numbers are equal "
                                                             "(id() reuse that had no visible effect in this run)"}
-    ck.cov["pipeline_files_compared"] = sum(len(x.get("files") or {}) for x in ref) * (len(tasks) - 1)
+    ck.cov["pipeline_files_compared"] = sum(len((ref[i].get("files") or {})) for t in tasks[1:] for i in t[3])
 
     # ---- include_header: the header carries the generation time (by design)
     hdr = {"op": "pipeline", "id": "header", "sources": fsets["primer"][0], "options": {"include_header": True}}
